@@ -24,6 +24,14 @@ Definition classify_method (rpc : option N) (m : str) : mstat :=
       if has_slash m' then MUnknown else MMalformed
   end.
 
+(* the lock-step monitors follow tunnel 0; events of other tunnels are dropped *)
+Definition on_tunnel0 (e : N * ev) : bool :=
+  match snd e with
+  | Emit _ t _ _ _ | Deliver _ t _ | StartRet t _ | ChanDone t _ | ServeRet t _ _ | NetSrvRet t _ | Stim _ t _ _ => N.eqb t 0
+  | _ => true
+  end.
+Definition tunnel0 (tr : trace) : trace := filter on_tunnel0 tr.
+
 Definition ended_with_error_at (act : N) (tr : trace) : bool :=
   existsb (fun e => match e with
                     | (a, ServeRet _ _ r) | (a, NetSrvRet _ r) => N.eqb a act && negb (res_is_ok r)
@@ -97,7 +105,7 @@ Definition tables_step (tr : trace) (s : tstate) (e : N * ev) : tstate :=
 (* prompt processing is only guaranteed with flow control (no parked loop) *)
 Definition mon_tables (c : cfg) (tr : trace) : list failure :=
   if c_raws c || negb (expect_fc c) then []
-  else t_fails (fold_left (tables_step tr) tr (mkT stab0 false false [] [])).
+  else let tr := tunnel0 tr in t_fails (fold_left (tables_step tr) tr (mkT stab0 false false [] [])).
 
 (* ---------- client side: frames for ids the client never allocated ---------- *)
 Record cstate := mkC { c_lastid : Z; c_made : bool; c_deadc : bool; c_q : list (Z * fkind); c_first : bool; c_fails : list failure }.
@@ -128,7 +136,7 @@ Definition ctable_step (c : cfg) (tr : trace) (s : cstate) (e : N * ev) : cstate
 
 Definition mon_ctable (c : cfg) (tr : trace) : list failure :=
   if c_rawc c || negb (c_raws c) then []
-  else c_fails (fold_left (ctable_step c tr) tr (mkC 0 false false [] true [])).
+  else let tr := tunnel0 tr in c_fails (fold_left (ctable_step c tr) tr (mkC 0 false false [] true [])).
 
 (* ---------- the settings exchange ---------- *)
 Definition first_s2c_delivery (tr : trace) : option (N * option (Z * fkind)) :=
@@ -146,6 +154,7 @@ Definition first_s2c_delivery (tr : trace) : option (N * option (Z * fkind)) :=
 
 Definition mon_negotiate (c : cfg) (tr : trace) : list failure :=
   if c_rawc c then [] else
+  let tr := tunnel0 tr in
   let news := flat_map (fun e => match e with (a, Emit C2S _ id (KNew _ _ rev _ _) _) => [(a, id, rev)] | _ => [] end) tr in
   if c_sleg c then
     (* a server that does not advertise: no exchange, revision zero *)
@@ -271,4 +280,4 @@ Definition overrun_step (tr : trace) (s : ostate) (e : N * ev) : ostate :=
 Definition mon_overrun (c : cfg) (tr : trace) : list failure :=
   if c_raws c || negb (expect_fc c) then []
   else if existsb (fun e => match snd e with HStart _ _ _ (Some _) _ _ _ => true | _ => false end) tr then []
-  else os_fails (fold_left (overrun_step tr) tr (mkOs [] [] [] false)).
+  else let tr := tunnel0 tr in os_fails (fold_left (overrun_step tr) tr (mkOs [] [] [] false)).
